@@ -69,6 +69,32 @@ def replay_import(model):
     return {"reproduced": bool(bad), "input": d, "observed": m.df.iloc[0].to_dict()}
 
 
+def _recentre(exp):
+    exp = exp.copy()
+    pos = exp[["x", "y", "z"]].values + exp[["shift_x", "shift_y", "shift_z"]].values
+    xr = np.where(pos >= 0, np.floor(pos + 0.5), -np.floor(-pos + 0.5))
+    exp[["x", "y", "z"]] = xr
+    exp[["shift_x", "shift_y", "shift_z"]] = pos - xr
+    return exp
+
+
+def _check_file(path, exp, reset, tag="file"):
+    bl = independent_star_read(path)
+    if len(bl) != 1 or bl[0]["name"] != "data_stopgap_motivelist" or bl[0]["cols"] != DOC_COLUMNS:
+        return {"what": f"{tag}: written file layout", "got": [(b["name"], b["cols"]) for b in bl]}
+    sg = pd.DataFrame(bl[0]["rows"], columns=DOC_COLUMNS)
+    hs = sg["halfset"].copy()
+    sg = sg.drop(columns=["halfset"]).astype(float); sg["halfset"] = hs
+    for em, star in DOC_PAIRS.items():
+        if not np.allclose(sg[star].values, exp[em].values, atol=1e-6, rtol=0):
+            return {"what": f"{tag}: field {em} -> {star}", "got": sg[star].values[:3].tolist(), "expected": exp[em].values[:3].tolist()}
+    if list(sg["halfset"]) != list(np.where(exp["subtomo_id"].values % 2 == 0, "A", "B")):
+        return {"what": f"{tag}: halfset"}
+    if not np.array_equal(sg["motl_idx"].values, (np.arange(1, len(exp) + 1) if reset else exp["subtomo_id"].values).astype(float)):
+        return {"what": f"{tag}: motl_idx"}
+    return None
+
+
 def gen_cases(seed, n_cases):
     rng = np.random.default_rng(seed + 404)
     for ci in range(n_cases):
@@ -110,31 +136,39 @@ def run_case(case):
                 _, e = call(cryomotl.emmotl2stopgap, df.copy(), path, update_coordinates=upd, reset_index=reset)
             if e is not None:
                 return {"raised": f"write {type(e).__name__}: {e}"}
-            exp = df.copy()
-            if upd:
-                pos = exp[["x", "y", "z"]].values + exp[["shift_x", "shift_y", "shift_z"]].values
-                xr = np.where(pos >= 0, np.floor(pos + 0.5), -np.floor(-pos + 0.5))
-                exp[["x", "y", "z"]] = xr
-                exp[["shift_x", "shift_y", "shift_z"]] = pos - xr
-            bl = independent_star_read(path)
-            if len(bl) != 1 or bl[0]["name"] != "data_stopgap_motivelist" or bl[0]["cols"] != DOC_COLUMNS:
-                return {"what": "written file layout", "got": [(b["name"], b["cols"]) for b in bl]}
-            sg = pd.DataFrame(bl[0]["rows"], columns=DOC_COLUMNS)
-            hs = sg["halfset"].copy()
-            sg = sg.drop(columns=["halfset"]).astype(float); sg["halfset"] = hs
-            for em, star in DOC_PAIRS.items():
-                if not np.allclose(sg[star].values, exp[em].values, atol=1e-6, rtol=0):
-                    return {"what": f"file: field {em} -> {star}", "got": sg[star].values[:3].tolist(), "expected": exp[em].values[:3].tolist()}
-            if list(sg["halfset"]) != list(np.where(exp["subtomo_id"].values % 2 == 0, "A", "B")):
-                return {"what": "file: halfset"}
-            if not np.array_equal(sg["motl_idx"].values, (np.arange(1, len(exp) + 1) if reset else exp["subtomo_id"].values).astype(float)):
-                return {"what": "file: motl_idx"}
+            exp = _recentre(df) if upd else df.copy()
+            r = _check_file(path, exp, reset)
+            if r:
+                return r
             m2, e = call(cryomotl.StopgapMotl, path)
             if e is not None:
                 return {"raised": f"read {type(e).__name__}: {e}"}
             for em in DOC_PAIRS:
                 if not np.allclose(m2.df[em].values.astype(float), exp[em].values, atol=1e-6, rtol=0):
                     return {"what": f"write;load changed {em}"}
+            # a list loaded from STOPGAP form is exported from its CURRENT particle table: write it again with recentring, other reset choice
+            path2 = os.path.join(tmp, "m2.star")
+            reset2 = not reset if case.get("flip_reset", True) else reset
+            loaded = m2.df.copy()  # verified above to equal exp to STAR precision; the recentring reference starts from what was loaded
+            _, e = call(m2.write_out, path2, update_coord=True, reset_index=reset2)
+            if e is not None:
+                return {"raised": f"second write {type(e).__name__}: {e}"}
+            r = _check_file(path2, _recentre(loaded.astype(float)), reset2, "load;write(update_coord)")
+            if r:
+                return r
+            m3, e = call(cryomotl.StopgapMotl, path)
+            if e is not None:
+                return {"raised": f"read {type(e).__name__}: {e}"}
+            m3.df["score"] = m3.df["score"].values[::-1].copy()
+            m3.df["class"] = m3.df["class"].values + 1.0
+            exp3 = exp.copy(); exp3["score"] = exp["score"].values[::-1].copy(); exp3["class"] = exp["class"].values + 1.0
+            path3 = os.path.join(tmp, "m3.star")
+            _, e = call(m3.write_out, path3, update_coord=False, reset_index=reset)
+            if e is not None:
+                return {"raised": f"write after edit {type(e).__name__}: {e}"}
+            r = _check_file(path3, exp3, reset, "load;edit;write")
+            if r:
+                return r
             em2, e = call(cryomotl.stopgap2emmotl, path)
             if e is not None:
                 return {"raised": f"stopgap2emmotl {type(e).__name__}: {e}"}
@@ -152,4 +186,14 @@ def run_case(case):
                 return {"what": f"import changed {em}"}
         if sorted(m.df.columns) != sorted(MOTL_COLS) or len(m.df) != len(df):
             return {"what": "imported table shape"}
-        return None
+        # an in-memory STOPGAP table with non-canonical halfset / motl_idx: export still follows the parity / numbering rule
+        sg2 = sg[DOC_COLUMNS].copy()
+        sg2["halfset"] = np.where(np.arange(len(df)) % 3 == 0, "A", "B"); sg2["motl_idx"] = np.arange(len(df), 0, -1) + 7
+        mm, e = call(cryomotl.StopgapMotl, sg2)
+        if e is not None:
+            return {"raised": f"{type(e).__name__}: {e}"}
+        path = os.path.join(tmp, "i.star")
+        _, e = call(mm.write_out, path, update_coord=upd, reset_index=reset)
+        if e is not None:
+            return {"raised": f"write {type(e).__name__}: {e}"}
+        return _check_file(path, _recentre(df) if upd else df, reset, "import;write")
